@@ -92,6 +92,10 @@ class Program:
         self.runahead = None     # e.g. 'P2'
         self.queues = {}         # qname -> (limit, [members])
         self.families = {}       # FAM -> [members]
+        # how sequential tasks are listed under [special tasks]: by name
+        # (None), or through a family SEQFAM that they inherit as their
+        # 'first' or 'second' parent
+        self.seq_family = None
         self.start = None        # warm start point (int) or None
         self.stop = None         # stop point option
         self.hold = None
@@ -213,7 +217,9 @@ class Program:
                     L.append(f'            members = {", ".join(members)}')
         specials = []
         seq = [t.name for t in self.tasks.values() if t.sequential]
-        if seq:
+        if seq and self.seq_family:
+            specials.append('        sequential = SEQFAM')
+        elif seq:
             specials.append(f'        sequential = {", ".join(seq)}')
         # clock-expire offsets are in hours
         ce = [f'{t.name}(PT{t.clock_expire}H)' if t.clock_expire >= 0
@@ -249,10 +255,18 @@ class Program:
         L.append('        script = true')
         for fam, members in self.families.items():
             L.append(f'    [[{fam}]]')
+        if seq and self.seq_family:
+            L.append('    [[SEQFAM]]')
+            L.append('    [[OTHERFAM]]')
         for t in self.tasks.values():
             L.append(f'    [[{t.name}]]')
-            if t.family:
-                L.append(f'        inherit = {t.family}')
+            parents = [t.family] if t.family else []
+            if t.sequential and self.seq_family == 'first':
+                parents.insert(0, 'SEQFAM')
+            elif t.sequential and self.seq_family:
+                parents = (parents or ['OTHERFAM']) + ['SEQFAM']
+            if parents:
+                L.append(f'        inherit = {", ".join(parents)}')
             if t.exec_retries:
                 L.append('        execution retry delays = '
                          f'{t.exec_retries}*PT{t.retry_delay}S')
